@@ -26,8 +26,30 @@
 #include <stdarg.h>
 #include <locale.h>
 #include <libintl.h>
+/* STUB: malloc() of more than VF_BIGALLOC bytes (the 512-block extent buffer) returns an object whose size is a symbolic value constrained to equal the request: same semantics, but CBMC then keeps the object as an unbounded array instead of flattening 4M bits per version (measured: 4 GB and no verdict otherwise) */
+#ifndef VF_BIGALLOC
+#define VF_BIGALLOC 4096
+#endif
+#ifndef VF_REPLAY
+__CPROVER_size_t nondet_vf_size(void);
+#endif
+static inline void *vf_malloc(size_t n)
+{
+#ifndef VF_REPLAY
+	if (n > VF_BIGALLOC) {
+		size_t m = nondet_vf_size();
+		__CPROVER_assume(m >= n); __CPROVER_assume(m <= n);
+		return (malloc)(m);
+	}
+#endif
+	return (malloc)(n);
+}
+#define malloc(n) vf_malloc(n)
 #include "ext2fs/ext2fs.h"
 #include "support/nls-enable.h"
+#ifdef VF_INCLUDE_IO_MANAGER
+#include "lib/ext2fs/io_manager.c"
+#endif
 
 void vf_exit(int code);
 int vf_getopt(int argc, char *const argv[], const char *opts);
